@@ -39,7 +39,7 @@ AMPLE = 0.49
 # endpoint to its class representative the transmapping tuple has fewer than two entries (a mapping of the final endpoint lands in
 # the slot of the initial one).  While the flag is True the generator does not draw (interstitial calculator, supercell) pairs in
 # exactly that region (su.nomap_region, computed from the crystal's point operations that survive in the supercell).
-EXCLUDE_INT_NOMAP = True
+EXCLUDE_INT_NOMAP = False  # R33 repaired in /repo (e0a9462)
 
 
 @st.composite
